@@ -526,7 +526,7 @@ def grd3_sequence_filter(P, R, L, rule="GRD-3"):
 
 # ------------------------------------------------------------------------------------------- VERD-1 & friends
 from ..rules import Cmp, bool_tests as _bt  # noqa: E402
-from ..dataflow import roots  # noqa: E402
+from ..dataflow import roots, deep_origins  # noqa: E402
 
 GET_OP = "key::InternalKey::get_operation"
 GET_USER_KEY = "key::InternalKey::get_user_key"
@@ -3530,7 +3530,14 @@ def grd17_memtable_output_level(P, R, L, rule="GRD-17"):
     R.analysed(b)
     HAS = "versioning::version::Version::has_overlap_in_level"
     tests = [c for c in b.calls() if not b.is_cleanup(c.bb) and c.name == HAS]
-    lvl = [l for l in range(len(b.locals)) if b.local_name(l) == "level" and b.local_ty(l) == "usize"]
+    # the level variable: the named usize local(s) the return value is copied from
+    lvl = []
+    for bb in range(b.n):
+        for st in b.blocks[bb]["stmts"]:
+            if st["k"] == "assign" and st["pl"]["l"] == 0 and not st["pl"]["p"] and st["rv"]["k"] == "use" and st["rv"]["ops"][0]["k"] in ("copy", "move"):
+                l0 = st["rv"]["ops"][0]["pl"]["l"]
+                if b.local_name(l0) is not None and b.local_ty(l0) == "usize" and l0 not in lvl:
+                    lvl.append(l0)
     incs = []
     for bb in range(b.n):
         if b.is_cleanup(bb):
@@ -3567,3 +3574,63 @@ def grd17_memtable_output_level(P, R, L, rule="GRD-17"):
     R.check(rule, fn + "|deeper-only-without-overlap", ok, where(b),
             "the output level is raised only behind `no overlap in level 0` and, per step, `no overlap in level + 1`, tested with (smallest, largest)",
             "level increments %s, level-0 gates %d, next-level gates %d, range args ok %s" % (incs, len(f0), len(f1), arg_ok))
+
+
+# ------------------------------------------------------------------------------------------- PAIR-13 every written data block is indexed
+def pair13_block_indexed(P, R, L, rule="PAIR-13"):
+    """TableBuilder: whenever flush_data_block wrote a block (Ok(Some(handle))), an index entry carrying that handle is
+    added before the method returns Ok — a block without an index entry cannot be reached by seek / get / iteration.
+    The footer receives (metaindex handle, index handle) in that order."""
+    FLUSHB = "tables::table_builder::TableBuilder::flush_data_block"
+    BADD = "tables::block_builder::BlockBuilder::add_entry"
+    n = 0
+    for fn in ("tables::table_builder::TableBuilder::add_entry", "tables::table_builder::TableBuilder::finalize"):
+        b = P.body(fn)
+        if b is None:
+            R.missing_anchor(rule, fn)
+            continue
+        R.analysed(b)
+        fl = [c for c in b.calls() if not b.is_cleanup(c.bb) and c.name == FLUSHB]
+        for f_ in fl:
+            n += 1
+            idx = [c for c in b.calls() if not b.is_cleanup(c.bb) and c.name == BADD and any("index_block_builder" in o.path for o in origins(b, c.args[0]))
+                   and any(o.kind == "call" and o.site is not None and o.site.bb == f_.bb for o in origins(b, c.args[2]))]
+            # Some-edges of the unwrapped flush result
+            some = []
+            for l in range(len(b.locals)):
+                if "Option<tables::block_handle::BlockHandle>" in b.local_ty(l) and not b.local_ty(l).startswith("std::result"):
+                    if any(o.kind == "call" and o.site is not None and o.site.bb == f_.bb for o in origins(b, {"k": "copy", "pl": {"l": l, "p": []}})):
+                        for t in option_tests(b, l):
+                            some += [(t.bb, x) for x in t.ok]
+            ok = bool(idx) and bool(some)
+            for (sb, tg) in some:
+                for r in _ok_blocks(b):
+                    if not b.must_pass(r, through_nodes=[c.bb for c in idx], start=tg):
+                        ok = False
+            # the separator comes from the last key of the block that was flushed
+            key_ok = all(any("maybe_last_key_added" in o.path for o2 in origins(b, c.args[1]) if o2.kind == "call" and o2.site is not None
+                             for a_ in o2.site.args for o in deep_origins(P, b, a_)) or
+                         any("maybe_last_key_added" in o.path for o in deep_origins(P, b, c.args[1])) for c in idx)
+            R.check(rule, "%s|flushed-block-gets-index-entry" % fn, ok, f_.where(),
+                    "on the edge where flush_data_block returned a handle, an index entry with that handle is added before Ok is returned",
+                    "index add sites fed by this flush %d, some-edges %d, separator from last key %s" % (len(idx), len(some), key_ok))
+    R.floor(rule, "flush_data_block sites in add_entry / finalize", n, 2)
+    fz = P.body("tables::table_builder::TableBuilder::finalize")
+    if fz is not None:
+        ft = [c for c in fz.calls() if not fz.is_cleanup(c.bb) and c.name == "tables::footer::Footer::new"]
+        wb = [c for c in fz.calls() if not fz.is_cleanup(c.bb) and c.name == "tables::table_builder::TableBuilder::write_block"]
+        ok = bool(ft) and len(wb) >= 2
+
+        def fed(c):
+            """which finalize() output feeds this write_block: 'index' (index_block_builder) or 'meta'"""
+            os_ = deep_origins(P, fz, c.args[1])
+            if any("index_block_builder" in o.path for o in os_) or any(
+                    o.kind == "call" and o.site is not None and any("index_block_builder" in x.path for a_ in o.site.args for x in origins(fz, a_)) for o in os_):
+                return "index"
+            return "meta"
+        for c in ft:
+            a0 = [o.site for o in origins(fz, c.args[0]) if o.kind == "call" and o.site is not None and o.name.endswith("write_block")]
+            a1 = [o.site for o in origins(fz, c.args[1]) if o.kind == "call" and o.site is not None and o.name.endswith("write_block")]
+            if not a0 or not a1 or fed(a0[0]) != "meta" or fed(a1[0]) != "index":
+                ok = False
+        R.check(rule, fz.path + "|footer-handles", ok, where(fz), "Footer::new(handle of the metaindex block, handle of the index block)", "footer sites %d" % len(ft))
